@@ -70,6 +70,12 @@ func genCfgEntry(r *rng) cfgEntry {
 	}
 	key += "." + v
 	e := cfgEntry{key: key, hasValue: true}
+	if r.coin(1, 60) {
+		// one record longer than 64 KiB (a tool-generated includeRegexp, say): everything git lists after it
+		// must still be read (a bufio.Scanner with its default token limit stops there: seeded C15y / C07y)
+		e.value = "refs/heads/(" + strings.Repeat("topic-"+string(randHeaderValue(r)[:1])+"|", 9000+r.n(3000)) + "x)"
+		return e
+	}
 	switch r.n(8) {
 	case 0:
 		e.hasValue = false
